@@ -10,7 +10,8 @@
    equality, every program (any number of threads, arbitrary options / interceptors / checks),
    EVERY schedule, the repaired code (v0 = false). *)
 From SC Require Import Base.Prelude Resource.Impl Resource.Spec Resource.Pull Resource.ImplProofs
-  Resource.Flat Resource.FlatProofs Resource.Judge Conc.Lts Conc.LtsProofs Conc.DeleteProofs Conc.FlatInst Conc.Judge.
+  Resource.Flat Resource.FlatProofs Resource.Judge Conc.Lts Conc.LtsProofs Conc.DeleteProofs Conc.FlatInst Conc.Judge
+  Conc.GenLts Conc.GenProofs Conc.LinSound Conc.AtomicDefs Gen.C02Atomic Conc.AtomicTable.
 From Coq Require Import Sorted.
 
 Section C02.
@@ -31,8 +32,8 @@ Section C02.
   Hypothesis ltb_total : forall a b, str_ltb a b = false -> str_ltb b a = false -> a = b.
 
   Variable prog : list (call M writer rmask).
-  (* ids are given, not generated (a generated id depends on the rng, not on the contents) *)
-  Hypothesis prog_ok : forall t c, nth_error prog t = Some c -> call_ok idfun c.
+  (* no restriction on the calls: an Update / Add with WithGenIDIfAbsent and an empty id is, here, a
+     call whose rng offers no candidate; calls with candidates: section C02_generated_ids below *)
   Variable v0 : vstate M.
   Variable c0 : cstate M.
   Hypothesis c0_sorted : sorted str_ltb (c_items c0).
@@ -160,6 +161,131 @@ Section C02.
   Proof. apply unavailable_after_five_lost_races; assumption. Qed.
 End C02.
 
+(* ---------- generated ids (WithGenIDIfAbsent), Conc/GenLts.v ----------
+   A thread whose call generates its id resolves, in its first step, the first of its rng's ten
+   candidates that is non-empty and unused at THAT instant, and continues as the call of that id.
+   cands t: the candidates of thread t's call.  Every program, every candidate assignment, every
+   schedule. *)
+Section C02_generated_ids.
+  Variable M : Type.
+  Variable m_eqb : M -> M -> bool.
+  Variable m_empty : M.
+  Variable writer : Type.
+  Variable w_validate : writer -> option Z.
+  Variable w_merge : writer -> M -> M -> M.
+  Variable rmask : Type.
+  Variable clock_at : Z -> Z.
+  Variable str_ltb : string -> string -> bool.
+  Variable idfun : option (string -> string).
+  Hypothesis m_eqb_eq : forall a b, m_eqb a b = true -> a = b.
+  Hypothesis ltb_irrefl : forall a, str_ltb a a = false.
+  Hypothesis ltb_trans : forall a b c, str_ltb a b = true -> str_ltb b c = true -> str_ltb a c = true.
+  Hypothesis ltb_total : forall a b, str_ltb a b = false -> str_ltb b a = false -> a = b.
+  Variable prog : list (call M writer rmask).
+  Variable cands : nat -> list string.
+  Variable v0 : vstate M.
+  Variable c0 : cstate M.
+  Hypothesis c0_sorted : sorted str_ltb (c_items c0).
+
+  Notation grun := (grun m_eqb m_empty w_validate w_merge clock_at str_ltb idfun false false prog cands).
+  Notation run := (run m_eqb m_empty w_validate w_merge clock_at str_ltb idfun false false).
+  Notation replay := (replay m_eqb m_empty w_validate w_merge clock_at str_ltb idfun).
+  Notation spec_call := (spec_call m_eqb m_empty w_validate w_merge clock_at str_ltb idfun (rmask := rmask)).
+  Notation predicted := (predicted m_eqb m_empty w_merge (rmask := rmask)).
+  Notation g0 := (g0 prog v0 c0).
+  Notation resolved := (resolved m_eqb m_empty w_validate w_merge clock_at str_ltb idfun prog cands v0 c0).
+  Notation rprog := (rprog m_eqb m_empty w_validate w_merge clock_at str_ltb idfun prog cands v0 c0).
+  Notation gmem_at := (gmem_at m_eqb m_empty w_validate w_merge clock_at str_ltb idfun prog cands v0 c0).
+
+  (* THE REDUCTION (what the harness used to assume when it handed the model Add(<reported id>)): the
+     run with generated ids is, state for state (memory, pcs, witness, subscribers), the run of
+     Conc/Lts.v on the program in which every call that resolved candidate g is the call of g -- and
+     so is every prefix of it.  Hence every C02 theorem above holds of runs with generated ids. *)
+  Theorem C02_generated_ids_reduction : forall sched,
+    g_st (grun sched g0) = run (rprog sched) sched (init (rprog sched) v0 c0) /\
+    (forall k, g_st (grun (firstn k sched) g0) = run (rprog sched) (firstn k sched) (init (rprog sched) v0 c0)) /\
+    (forall t, nth_error (rprog sched) t = option_map (fun c => subst_call idfun c (resolved sched t)) (nth_error prog t)) /\
+    (forall t g, resolved sched t = Some g ->
+       (exists id0 msg o, nth_error prog t = Some (CUpdate id0 msg o) /\ is_gen idfun (CUpdate id0 msg o (rmask := rmask)) = true /\
+                          nth_error (rprog sched) t = Some (CUpdate g msg (no_gen o))) /\
+       In g (firstn 10 (cands t)) /\ g <> ""%string /\ In t sched).
+  Proof.
+    intros sched. split; [apply grun_is_run; assumption|]. split; [intros k; apply grun_prefix; assumption|].
+    split; [intros t; apply rprog_spec|]. intros t g. apply resolved_spec; assumption.
+  Qed.
+
+  (* linearizability: the reference (Resource/Spec.v) replays every generating call as the call of
+     the candidate it resolved *)
+  Theorem C02_generated_ids_linearizable : forall sched,
+    let s := g_st (grun sched g0) in
+    let P := rprog sched in
+    replay P (v0, c0) (map (@wit_tid M) (st_wit s)) = (mem (st_w s), map (@wit_out M) (st_wit s)) /\
+    (forall t c p, nth_error P t = Some c -> nth_error (st_pcs s) t = Some p ->
+                   map (@wit_out M) (wit_of t (st_wit s)) = olist (predicted c p)) /\
+    (forall e, In e (st_wit s) -> nth_error sched (wit_k e) = Some (wit_tid e)) /\
+    StronglySorted (fun a b => (wit_k a < wit_k b)%nat) (st_wit s).
+  Proof. apply gen_linearizable; assumption. Qed.
+
+  Theorem C02_generated_ids_linearization_points : forall sched e,
+    In e (st_wit (g_st (grun sched g0))) ->
+    exists c, nth_error (rprog sched) (wit_tid e) = Some c /\ nth_error sched (wit_k e) = Some (wit_tid e) /\
+              spec_call (gmem_at sched (wit_k e)) c = (gmem_at sched (S (wit_k e)), wit_out e).
+  Proof. apply gen_linearization_points; assumption. Qed.
+
+  (* the right reference for a generating Add is NOT "the first unused candidate at the write" (a
+     Delete between the read and the write can free an earlier candidate: C02_first_fresh_spec_refuted)
+     but "ANY unused id": the id the call resolved was not stored at the instant of its write, and
+     is stored with the returned message right after *)
+  Theorem C02_generated_id_fresh_at_write : forall sched t id0 msg o g nv,
+    nth_error prog t = Some (CUpdate id0 msg o) -> wo_expect_absent o = true -> resolved sched t = Some g ->
+    nth_error (st_pcs (g_st (grun sched g0))) t = Some (PDone (OVal (inl nv))) ->
+    exists k, nth_error sched k = Some t /\
+              lookup (apply_id idfun g) (c_items (snd (gmem_at sched k))) = None /\
+              option_map (@it_body M) (lookup (apply_id idfun g) (c_items (snd (gmem_at sched (S k))))) = Some nv.
+  Proof. apply gen_add_fresh_at_write; assumption. Qed.
+
+  (* generated ids never collide: two Adds that generate never both succeed under one stored id
+     (program without Deletes) ... *)
+  Theorem C02_generated_ids_never_collide : forall sched t1 t2 id1 id2 msg1 msg2 o1 o2 g1 g2 nv1 nv2,
+    (forall t c, nth_error prog t = Some c -> not_delete c) ->
+    t1 <> t2 ->
+    nth_error prog t1 = Some (CUpdate id1 msg1 o1) -> nth_error prog t2 = Some (CUpdate id2 msg2 o2) ->
+    wo_expect_absent o1 = true -> wo_expect_absent o2 = true ->
+    resolved sched t1 = Some g1 -> resolved sched t2 = Some g2 ->
+    nth_error (st_pcs (g_st (grun sched g0))) t1 = Some (PDone (OVal (inl nv1))) ->
+    nth_error (st_pcs (g_st (grun sched g0))) t2 = Some (PDone (OVal (inl nv2))) ->
+    apply_id idfun g1 <> apply_id idfun g2.
+  Proof. apply gen_ids_never_collide; assumption. Qed.
+
+  (* ... and with Deletes in the program a successful Delete of the id is linearized between them *)
+  Theorem C02_generated_ids_separated_by_delete : forall sched t1 t2 id1 id2 msg1 msg2 o1 o2 g1 g2 nv1 nv2 k1 k2,
+    nth_error prog t1 = Some (CUpdate id1 msg1 o1) -> nth_error prog t2 = Some (CUpdate id2 msg2 o2) ->
+    wo_expect_absent o2 = true ->
+    resolved sched t1 = Some g1 -> resolved sched t2 = Some g2 -> apply_id idfun g1 = apply_id idfun g2 ->
+    In (t1, OVal (inl nv1), k1) (st_wit (g_st (grun sched g0))) ->
+    In (t2, OVal (inl nv2), k2) (st_wit (g_st (grun sched g0))) -> (k1 < k2)%nat ->
+    exists k3 t3 id3 o3 b, (k1 < k3 < k2)%nat /\ nth_error prog t3 = Some (CDelete id3 o3) /\
+                           apply_id idfun id3 = apply_id idfun g1 /\
+                           In (t3, ODel (Some b) None, k3) (st_wit (g_st (grun sched g0))).
+  Proof. apply gen_ids_separated_by_delete; assumption. Qed.
+
+  (* the id callback is invoked exactly once, with the resolved candidate; never without one *)
+  Theorem C02_id_callback : forall sched t,
+    g_ids (grun sched g0) t = match resolved sched t with
+                              | Some g => if id_cb_at prog t then [g] else []
+                              | None => []
+                              end.
+  Proof. apply id_callback_spec; assumption. Qed.
+End C02_generated_ids.
+
+Print Assumptions C02_generated_ids_reduction.
+Print Assumptions C02_generated_ids_linearizable.
+Print Assumptions C02_generated_ids_linearization_points.
+Print Assumptions C02_generated_id_fresh_at_write.
+Print Assumptions C02_generated_ids_never_collide.
+Print Assumptions C02_generated_ids_separated_by_delete.
+Print Assumptions C02_id_callback.
+
 Print Assumptions C02_linearizable.
 Print Assumptions C02_returned_is_linearized.
 Print Assumptions C02_linearization_points.
@@ -187,6 +313,83 @@ Theorem C02_two_adds_v0_refuted :
                     [mkFO (Some (mkF 10 0 0)) 0; mkFO (Some (mkF 11 0 0)) 0] None [("a"%string, mkF 11 0 0)] [] [] []) = false.
 Proof. vm_compute. repeat split; reflexivity. Qed.
 Print Assumptions C02_two_adds_v0_refuted.
+
+(* ---------- the linearizability checker (C02_ok) is sound and complete ---------- *)
+(* whatever history the harness observed -- a forced schedule, or a free-running one from the
+   16-core stress -- if C02_ok accepts it then a linearization EXISTS: a permutation of the calls
+   that took effect, consistent with real-time precedence of the recorded stamps, on which the
+   sequential reference returns every call's observed result and ends in the contents read at the end *)
+Theorem C02_checker_sound : forall c i vinit cinit hist fv fc,
+  hist_of_case c = Some (i, vinit, cinit, hist, fv, fc) -> C02_ok c = true ->
+  forallb allowed_code (filter (fun h => is_write_call (h_call h)) hist) = true /\
+  exists order, linearization i (init_v vinit, init_c cinit) (effective hist) order fv fc.
+Proof. exact C02_ok_sound. Qed.
+
+(* and it rejects no linearizable history (stamps distinct, invocation before response) *)
+Theorem C02_checker_complete : forall i vinit cinit hist fv fc order,
+  forallb allowed_code (filter (fun h => is_write_call (h_call h)) hist) = true ->
+  keys_distinct (effective hist) = true ->
+  (forall h, In h (effective hist) -> h_inv h <= h_resp h) ->
+  linearization i (init_v vinit, init_c cinit) (effective hist) order fv fc ->
+  linearizable_b i vinit cinit hist fv fc = true.
+Proof. exact linearizable_b_complete. Qed.
+Print Assumptions C02_checker_sound.
+Print Assumptions C02_checker_complete.
+
+(* ---------- the lock discipline that makes the model's steps atomic, on today's source ---------- *)
+(* Gen/C02Atomic.v is regenerated from pkg/resource/{atomic,value,collection}.go on every run: in
+   GetAndUpdate the re-read, the proto.Equal re-validation and the save are ONE exclusive critical
+   section entered after the change function ran with no lock; in Collection.Delete the re-read,
+   delete, commit number, turnstile and publication are ONE exclusive section and the caller's check
+   runs before it with no lock; every yield point (= boundary of a model step) is outside any lock *)
+Theorem C02_lock_table : atomic_table_ok atomic_rows = true.
+Proof. exact atomic_table_holds. Qed.
+Print Assumptions C02_lock_table.
+
+(* ---------- generated ids: "the first unused candidate at the instant of the write" is NOT the reference ---------- *)
+Definition gen_wo := mkFWO None None None None false None false None false None None false true true true.
+Definition freed_prog : list fcall := [FAdd "" (mkF 60 0 0) gen_wo; FDelete "x1" plain_wo].
+Definition freed_cands : list (list string) := [["x1"; "x2"]%string; []].
+Definition freed_init : list (string * fmsg * Z) := [("x1"%string, mkF 7 0 0, 320)].
+
+(* x1 is stored; the Add reads (x1 taken: it resolves x2); the Delete removes x1; the Add writes.
+   At the instant of the write the first unused candidate is x1, the call stores x2: refinement to
+   Spec.v with the same candidate list fails, while x2 IS unused at that instant
+   (C02_generated_id_fresh_at_write) *)
+Theorem C02_first_fresh_at_write_refuted :
+  let gs := f_grun None freed_prog freed_cands [0; 1; 1; 0; 0]%nat freed_init in
+  let at_write := f_grun None freed_prog freed_cands [0; 1; 1]%nat freed_init in
+  g_res gs 0%nat = Some "x2"%string /\
+  map (@result_of fmsg) (st_pcs (g_st gs)) = [Some (OVal (inl (mkF 60 0 0))); Some (ODel (Some (mkF 7 0 0)) None)] /\
+  first_fresh (M := fmsg) None ["x1"; "x2"]%string 10 (c_items (w_c (st_w (g_st at_write)))) = Some "x1"%string /\
+  final_list (w_c (st_w (g_st gs))) = [("x2"%string, mkF 60 0 0)] /\
+  g_ids gs 0%nat = ["x2"%string] /\ g_created gs 0%nat = 1.
+Proof. vm_compute. repeat split; reflexivity. Qed.
+Print Assumptions C02_first_fresh_at_write_refuted.
+
+(* the created callback fires when the provisional message is allocated, also for a call that then
+   loses the race and creates nothing (two create-if-absent Updates of one absent id) *)
+Definition cb_wo := mkFWO None None None None false None false None false (Some (IAddOld Fa)) None true true false false.
+Definition two_upserts_cb : list fcall := [FUpdate "a" (mkF 3 0 0) cb_wo; FUpdate "a" (mkF 4 0 0) cb_wo].
+Example C02_created_callback_fires_on_lost_race :
+  let gs := f_grun None two_upserts_cb [[]; []] [0; 1; 0; 1; 0]%nat [] in
+  map (@result_of fmsg) (st_pcs (g_st gs)) = [Some (OVal (inl (mkF 3 0 0))); Some (OLost 10)] /\
+  g_created gs 0%nat = 1 /\ g_created gs 1%nat = 1 /\
+  final_list (w_c (st_w (g_st gs))) = [("a"%string, mkF 3 0 0)].
+Proof. vm_compute. repeat split; reflexivity. Qed.
+
+(* non-vacuity of the generated-id theorems: two Adds drawing the same first candidate, both past
+   the read before either writes: the loser is Aborted; run one after the other they get x1 and x2 *)
+Definition two_gen : list fcall := [FAdd "" (mkF 60 0 0) gen_wo; FAdd "" (mkF 61 0 0) gen_wo].
+Example C02_nonvacuous_generated_ids :
+  let gs := f_grun None two_gen [["x1"; "x2"]%string; ["x1"; "x3"]%string] [0; 1; 0; 1; 0]%nat [] in
+  let gs2 := f_grun None two_gen [["x1"; "x2"]%string; ["x1"; "x3"]%string] [0; 0; 0; 1; 1; 1]%nat [] in
+  map (@result_of fmsg) (st_pcs (g_st gs)) = [Some (OVal (inl (mkF 60 0 0))); Some (OLost 10)] /\
+  g_res gs 1%nat = Some "x1"%string /\
+  map (@result_of fmsg) (st_pcs (g_st gs2)) = [Some (OVal (inl (mkF 60 0 0))); Some (OVal (inl (mkF 61 0 0)))] /\
+  g_res gs2 1%nat = Some "x3"%string /\
+  final_list (w_c (st_w (g_st gs2))) = [("x1"%string, mkF 60 0 0); ("x3"%string, mkF 61 0 0)].
+Proof. vm_compute. repeat split; reflexivity. Qed.
 
 (* ---------- non-vacuity: the flat algebra meets the hypotheses; a run with a lost race ---------- *)
 Example C02_nonvacuous_hypotheses :
